@@ -110,6 +110,27 @@ func familyExt(family, id string, g *Gen, blocks, maxTx int) *Scenario {
 	case "deleg":
 		g.Hostile = 0.2
 		return g.Mixed(id, blocks, maxTx+2, DelegKinds)
+	case "valset":
+		// staking activity, then a quiet tail (transfers only) so that the active set can converge
+		g.Hostile = 0.1
+		sc := g.Mixed(id, blocks, maxTx+1, StakeKinds)
+		cut := blocks - 8 - g.R.Intn(3)
+		if cut < 2 {
+			cut = 2
+		}
+		for i := cut; i < len(sc.Blocks); i++ {
+			sc.Blocks[i].Txs = nil
+			sc.Blocks[i].Absent = nil
+			if g.R.Intn(2) == 0 {
+				sc.Blocks[i].Txs = []STx{g.Tx("SEND", false)}
+			}
+		}
+		return sc
+	case "exodus":
+		// every validator may unstake everything
+		g.Exodus = true
+		g.Hostile = 0
+		return g.Mixed(id, blocks, maxTx, []string{"UNSTAKE", "UNSTAKE", "UNSTAKE", "STAKE", "SEND"})
 	case "stake":
 		g.Hostile = 0.2
 		return g.Mixed(id, blocks, maxTx+2, StakeKinds)
@@ -124,6 +145,8 @@ func familyKindsExt(family string) []string {
 	switch family {
 	case "deleg":
 		return DelegKinds
+	case "valset", "exodus":
+		return StakeKinds
 	case "stake":
 		return StakeKinds
 	case "gov":
